@@ -21,6 +21,8 @@ func main() {
 	switch os.Args[1] {
 	case "pp":
 		ppMain(os.Args[2:])
+	case "fmt":
+		fmtMain(os.Args[2:])
 	case "lex":
 		lexMain(os.Args[2:])
 	case "lexworker":
